@@ -2,9 +2,11 @@
   Props.C10 — the translator is total and memory-safe on valid modules and on truncated files.
 
   Part 1: fixed stack buffers filled by `sprintf` (stringbuilder.c, c.c), rows regenerated into
-  `Gen.Reader.sprintfBuffers`: for every argument value of the declared C type the formatted text and its
-  terminator fit — except `stringBuilderAppendCharHex`, whose `char buffer[3]` overflows for every `char`
-  with the high bit set (`sprintf_charhex_counterexample`; found on the real code by the sanitizer sweep).
+  `Gen.Reader.sprintfBuffers` (buffer size, format, and the C type of the argument AS PASSED, i.e. after a cast
+  in the call): for every argument value of that type the formatted text and its terminator fit.
+  `sprintf_charhex_signed_overflows` records why the cast `(unsigned char)` in `stringBuilderAppendCharHex`
+  (/repo 152af65) is needed: passed as a (signed) `char`, every byte >= 0x80 printed 8 hex digits into
+  `char buffer[3]`.
 -/
 import W2c2Verif.Lemmas.ReaderPrintf
 import W2c2Verif.Gen.Reader
@@ -57,13 +59,13 @@ theorem len_i (w : Nat) (ll : Bool) (raw bits k : Nat) (hb : 0 < bits) (h : raw 
   have : (if (Arg.mk bits true raw).toInt < 0 then 1 else 0) ≤ 1 := by split <;> omega
   omega
 
-/-- **sprintf_fits** (integer rows, all but the hex escape): for EVERY value of the declared argument type
-    the text plus its terminating NUL fits the buffer declared in the source. -/
-theorem sprintf_fits_partial :
-    ∀ row ∈ sprintfBuffers, ∀ sg, row.argSigned = some sg → row.func ≠ "stringBuilderAppendCharHex" →
+/-- **sprintf_fits** (every integer row): for EVERY value of the argument type the text plus its terminating
+    NUL fits the buffer declared in the source. -/
+theorem sprintf_fits :
+    ∀ row ∈ sprintfBuffers, ∀ sg, row.argSigned = some sg →
       ∀ raw, raw < 2 ^ row.argBits →
         ∃ n, fmtLen row.format [⟨row.argBits, sg, raw⟩] = some n ∧ n + 1 ≤ row.size := by
-  intro row hrow sg hsg hne raw hraw
+  intro row hrow sg hsg raw hraw
   simp only [sprintfBuffers, List.mem_cons, List.mem_nil_iff, or_false] at hrow
   rcases hrow with rfl | rfl | rfl | rfl | rfl | rfl | rfl | rfl | rfl
   · -- "%u", U32, buffer[11]
@@ -88,7 +90,15 @@ theorem sprintf_fits_partial :
     simp at this ⊢; omega
   · simp at hsg
   · simp at hsg
-  · exact absurd rfl hne
+  · -- "%02X", (unsigned char), buffer[3]
+    simp only [Option.some.injEq] at hsg; subst hsg
+    refine ⟨_, by simp only [fmtLen, parse_02X, piecesLen, Option.map]; rfl, ?_⟩
+    have hraw' : raw < 256 := hraw
+    have hc : convLen ⟨2, false, .X⟩ ⟨8, false, raw⟩ = max 2 (hexDigits raw) := by
+      show max 2 (hexDigits (((Arg.mk 8 false raw).toInt) % ((2 ^ 32 : Nat) : Int)).toNat) = _
+      rw [toInt_unsigned, view_unsigned (by omega)]
+    have := hexDigits_le 1 raw (by omega)
+    rw [hc]; simp; omega
   · -- "%08X", U32, buffer[9]
     simp only [Option.some.injEq] at hsg; subst hsg
     refine ⟨_, by simp only [fmtLen, parse_08X, piecesLen, Option.map]; rfl, ?_⟩
@@ -106,29 +116,12 @@ theorem sprintf_fits_float_partial :
       (row.format = "%.9g" ∧ gMaxLen 9 + 1 ≤ row.size) ∨ (row.format = "%.17g" ∧ gMaxLen 17 + 1 ≤ row.size) := by
   decide
 
-/-- The hex escape `sprintf(buffer /* char[3] */, "%02X", (char) value)`: the `char` is promoted to `int`;
-    `%X` reads it as `unsigned int`.  It fits exactly for the non-negative `char`s … -/
-theorem sprintf_charhex_fits_ascii (raw : Nat) (h : raw < 128) :
-    ∃ n, fmtLen "%02X" [⟨8, true, raw⟩] = some n ∧ n + 1 ≤ 3 := by
-  refine ⟨_, by simp only [fmtLen, parse_02X, piecesLen, Option.map]; rfl, ?_⟩
-  have hti : (Arg.mk 8 true raw).toInt = raw := by
-    simp only [Arg.toInt]; split
-    · rename_i hc; have := hc.2; omega
-    · rfl
-  have hlt : raw < 2 ^ 32 := by omega
-  have hc : convLen ⟨2, false, .X⟩ ⟨8, true, raw⟩ = max 2 (hexDigits raw) := by
-    show max 2 (hexDigits (((Arg.mk 8 true raw).toInt) % ((2 ^ 32 : Nat) : Int)).toNat) = _
-    rw [hti, view_unsigned hlt]
-  have := hexDigits_le 1 raw (by omega)
-  rw [hc]; simp; omega
-
-/-- … and overflows the 3-byte buffer for EVERY `char` with the high bit set (bytes 0x80–0xFF of a UTF-8
-    name): 8 hex digits + NUL = 9 bytes.  This is the row the full `sprintf_fits` fails on. -/
-theorem sprintf_charhex_counterexample (raw : Nat) (h1 : 128 ≤ raw) (h2 : raw < 256) :
-    ∃ row ∈ sprintfBuffers, row.func = "stringBuilderAppendCharHex" ∧ row.size = 3 ∧ row.format = "%02X" ∧
-      row.argBits = 8 ∧ row.argSigned = some true ∧
-      fmtLen row.format [⟨row.argBits, true, raw⟩] = some 8 := by
-  refine ⟨⟨"stringBuilderAppendCharHex", 3, "%02X", "char", 8, some true⟩, by decide, rfl, rfl, rfl, rfl, rfl, ?_⟩
+/-- Regression witness for /repo 152af65: passed as a plain (signed) `char` — promoted to `int`, read by `%X`
+    as `unsigned int` — EVERY byte with the high bit set (0x80–0xFF, i.e. every non-ASCII UTF-8 name byte)
+    prints 8 hex digits: 9 bytes into `char buffer[3]`.  Were the cast removed, the regenerated row would have
+    `argSigned = some true` again and `sprintf_fits` would no longer check. -/
+theorem sprintf_charhex_signed_overflows (raw : Nat) (h1 : 128 ≤ raw) (h2 : raw < 256) :
+    fmtLen "%02X" [⟨8, true, raw⟩] = some 8 := by
   have hti : (Arg.mk 8 true raw).toInt = (raw : Int) - 256 := by
     simp only [Arg.toInt]; split
     · rfl
@@ -142,7 +135,6 @@ theorem sprintf_charhex_counterexample (raw : Nat) (h1 : 128 ≤ raw) (h2 : raw 
   have hc : convLen ⟨2, false, .X⟩ ⟨8, true, raw⟩ = max 2 (hexDigits (4294967040 + raw)) := by
     show max 2 (hexDigits (((Arg.mk 8 true raw).toInt) % ((2 ^ 32 : Nat) : Int)).toNat) = _
     rw [hti, hv]
-  show fmtLen "%02X" [⟨8, true, raw⟩] = some 8
   simp only [fmtLen, parse_02X, piecesLen, Option.map, hc]
   simp; omega
 
